@@ -69,7 +69,7 @@ def classify(res):
         res.status = "proved"
 
 
-def verify_contract(c, timeout_ms=30000, jobs=None):
+def verify_contract(c, timeout_ms=30000, jobs=None, defer=False):
     res = UnitResult(c.key)
     res.model_name = c.model
     res.props = list(c.prop)
@@ -87,8 +87,9 @@ def verify_contract(c, timeout_ms=30000, jobs=None):
         res.used_contracts = sorted(ex.used_contracts)
         res.notes = sorted(ex.notes)
         res.assumed_asserts = sorted(ex.assumed_asserts)
-        discharge(obs, timeout_ms=timeout_ms, jobs=jobs)
-        classify(res)
+        if not defer:
+            discharge(obs, timeout_ms=timeout_ms, jobs=jobs)
+            classify(res)
     except loader.AnchorError as e:
         res.status, res.detail = "anchor", str(e)
     except VerifError as e:
@@ -99,7 +100,7 @@ def verify_contract(c, timeout_ms=30000, jobs=None):
     return res
 
 
-def verify_lemma(l, timeout_ms=30000, jobs=None):
+def verify_lemma(l, timeout_ms=30000, jobs=None, defer=False):
     """A lemma over contracts: variables are universally quantified, the instantiated requires/ensures of the
     contracts in ``uses`` and the ``assumes`` are hypotheses, ``goal`` is the obligation."""
     import ast
@@ -144,11 +145,23 @@ def verify_lemma(l, timeout_ms=30000, jobs=None):
         res.paths = 1
         res.explorer = ex
         ex.path_inputs[0] = ctx.inputs
-        discharge(res.obligations, timeout_ms=timeout_ms, jobs=jobs)
-        classify(res)
+        if not defer:
+            discharge(res.obligations, timeout_ms=timeout_ms, jobs=jobs)
+            classify(res)
     except VerifError as e:
         res.status, res.detail = "out_of_reach", str(e)
     except Exception as e:
         res.status, res.detail = "crash", "%s: %s\n%s" % (type(e).__name__, e, traceback.format_exc())
     res.seconds = time.time() - t0
     return res
+
+
+def finish_all(units, timeout_ms=30000, jobs=None):
+    """Discharge the obligations of all deferred units in ONE pool (so slow queries of different units overlap)."""
+    pending = [u for u in units if u.status is None]
+    obs = [o for u in pending for o in u.obligations if o.result is None]
+    t0 = time.time()
+    discharge(obs, timeout_ms=timeout_ms, jobs=jobs)
+    for u in pending:
+        classify(u)
+        u.seconds += sum(o.seconds for o in u.obligations)
